@@ -33,6 +33,11 @@ def owner_writes(fn):
             out.append((b, i, ev, P(ev["args"][0])))
         elif ev.get("k") == "write" and P(ev["lhs"]) == OWNER:
             out.append((b, i, ev, P(ev["rhs"])))
+        elif ev.get("k") == "call" and callee_of(ev) in ("std::exchange", "std::swap") and ev.get("args") and P(ev["args"][0]) == OWNER:
+            # std::exchange(owner_id_, v) writes v; std::swap writes the other operand
+            out.append((b, i, ev, P(ev["args"][1]) if len(ev["args"]) > 1 else "?"))
+        elif ev.get("k") == "call" and callee_short(ev) in ("swap", "reset") and ev.get("recv") is not None and P(ev["recv"]) == OWNER:
+            out.append((b, i, ev, INVALID if callee_short(ev) == "reset" else "?"))
     return out
 
 
